@@ -131,9 +131,14 @@ def sender(code, curt, size, who=ALICE, steplimit=5000):
     return s
 
 
-def rend(code, curt, size, memo, who=ALICE):
-    """real Memoer.rend under both guards -> (grams or None, effective size, exception or None)"""
-    s = sender(code, curt, size, who)
+def rend(code, curt, size, memo, who=ALICE, switched=False):
+    """real Memoer.rend under both guards -> (grams or None, effective size, exception or None)
+    switched: the sender is built for the other header encoding and switched to this one afterwards (.curt setter)"""
+    if switched:
+        s = sender(code, not curt, size, who)
+        s.curt = curt
+    else:
+        s = sender(code, curt, size, who)
     try:
         with alarm():
             grams = s.rend(memo)
